@@ -1,7 +1,7 @@
 (* C06 -- no complete protocol data unit is ever silently discarded. *)
 From Coq Require Import ZArith NArith List.
 From Coq.Strings Require Import Byte.
-From SV Require Import Base.Bytes Base.Py Asn1.Model Msg.Types Msg.Decode Sess.Model Sess.Frame.
+From SV Require Import Gen.Sharing Base.Bytes Base.Py Asn1.Model Msg.Types Msg.Decode Sess.Model Sess.Frame.
 Import ListNotations.
 
 (* [frame_one] reads identifier and length octets only (X.690 8.1.2, 8.1.3): the independent framer.
@@ -37,6 +37,14 @@ Example C06_complete_but_overrunning :
   unpack_message 10 [x30;x0e;x02;x01;x01;x61;x09;x0a;x01;x00;x04;x00;x04;x05;x61;x62] = Raise ValueErr.
 Proof. split; vm_compute; reflexivity. Qed.
 
+(* The theorems above are about functions and values; that _session.py (everything a session mutates is reached from the session object) keeps no state
+   between calls and shares none between objects is read off the source by tools/audit.py on every run
+   (Gen/Sharing.v): no memoisation, no module- or class-level container that is written, no mutable default, no
+   attribute written behind a dataclass, no parameter stored without a copy. *)
+Theorem C06_audit_no_state_between_calls : (hidden_state_session = [])%list.
+Proof. exact eq_refl. Qed.
+
 Print Assumptions C06_receive_accounts_for_every_complete_unit.
 Print Assumptions C06_framing_loses_no_octet.
 Print Assumptions C06_need_more_iff_incomplete.
+Print Assumptions C06_audit_no_state_between_calls.
